@@ -177,6 +177,12 @@ pub fn probe_image(
                     let (gets2, errs2) = get_all(&db2, &u2, None);
                     ev.insert("gets2".into(), json!(gets2));
                     ev.insert("geterrs2".into(), json!(errs2.len()));
+                    // the shape the database reports after THIS reopen (it has read what the
+                    // recovery of the crash image wrote into the manifest)
+                    if let Some(d2) = wait_quiescent(&db2, Duration::from_secs(20)) {
+                        let dj2 = dump_json(&d2, &u2, fs2.disk().listing(), ROOT);
+                        ev.insert("levels2".into(), dj2["levels"].clone());
+                    }
                     drop(db2);
                 }
                 Err(e) => {
@@ -200,7 +206,7 @@ pub fn probe_image(
     let defaults = json!({
         "open_ok": false, "err": "", "gets": vec![0; nk], "geterrs": 0, "fwdok": true, "fwd": [],
         "quiet": false, "put_ok": false, "reopen_ok": false, "gets2": vec![0; nk], "geterrs2": 0,
-        "hang": false, "panic": false,
+        "hang": false, "panic": false, "levels2": [[],[],[],[],[],[],[]],
         "dump": {"levels": [[],[],[],[],[],[],[]], "dir": [], "man": 0, "wal": 0, "seq": 0, "curwal": 0},
     });
     if let (Value::Object(ev), Value::Object(d)) = (&mut event, defaults) {
@@ -327,20 +333,39 @@ pub fn run_crash(
                 // second generation: crash during the recovery (and the marker write) itself
                 let j2 = out.journal;
                 let step = (j2.len() / 6).max(1);
-                let mut n2 = 1;
-                while n2 <= j2.len() {
+                // evenly spaced crash points of the recovery, plus the point right before every
+                // rename (the new manifest is complete, CURRENT still names the old one)
+                let mut points: Vec<usize> = (1..=j2.len()).step_by(step).collect();
+                for (idx, op) in j2.iter().enumerate() {
+                    if let JOp::Rename { .. } = op {
+                        if idx >= 1 {
+                            points.push(idx);
+                        }
+                    }
+                }
+                points.sort_unstable();
+                points.dedup();
+                for n2 in points {
                     let img2 = SimFs::image(&out.base, &j2, n2, None);
+                    // every other second-generation probe recovers with OTHER sizes than the
+                    // recovery that crashed (settings may change between reopens): the tables it
+                    // writes under the same file numbers are different ones
+                    let mut o2g = sp.opts.clone();
+                    let before_rename = matches!(j2.get(n2), Some(JOp::Rename { .. }));
+                    if before_rename || (n2 / step) % 2 == 1 {
+                        o2g.memtable = (o2g.memtable / 3).max(300);
+                        o2g.block = if o2g.block > 64 { 16 } else { 256 };
+                    }
                     let sp2 = ProbeSpec {
                         prefix: sp.prefix,
                         torn: sp.torn,
-                        opts: sp.opts.clone(),
+                        opts: o2g,
                         gen: 2,
                     };
                     let o2 = probe_image(img2, &sp2, &u, (marker_key, marker_vid + 1), false);
                     let mut ev = o2.event;
                     ev["gen2_prefix"] = json!(n2);
                     results.lock().push((i, ev));
-                    n2 += step;
                 }
             }
         }));
